@@ -67,6 +67,9 @@ def check(ctx):
     rule_hold(ctx, tab, "R2")
     rule_ended(ctx, tab, "R3")
     c10.rules_prepare_frame(ctx, "R3")
+    # "at or after the total duration the terminal value is produced": the end test agrees with the reported duration
+    from rules import c03
+    c03.rule_duration_formula(ctx, "R3", tab)
     ctx.notes.append("not decided: 'within a few ulps' at interior keyframes (needs ease(1) = 1 and division rounding), "
                      "every cycle k (periodicity of % in floats)")
     ctx.assumptions += ["cycle duration finite > 0", "values representable in f32 (the property's premise)"]
